@@ -807,3 +807,6 @@ Proof.
     unfold fits_top in Hf. destruct (shape (DMustNull d)) as [e'|] eqn:Hs; [|discriminate].
     eapply Hold; eauto. unfold fits_top. now rewrite Hs.
 Qed.
+
+(* the opacity above was only a guard for the tactics of this file *)
+Transparent enum_lookup enum_value enum_members.
